@@ -210,7 +210,19 @@ pub fn run_session(ctx: &mut Ctx, t: &mut Tape, mode: Mode) {
         if ranged {
             let mut regions = tmpl_code_regions(&text.bytes);
             if mode == Mode::C04 && !regions.is_empty() && t.pct(40) {
-                match t.below(3) {
+                match t.below(4) {
+                    3 => {
+                        // exclude a token-aligned span inside a region (the next parse usually includes it again)
+                        let i = t.below(regions.len());
+                        let (s, e) = regions[i];
+                        let bs: Vec<usize> = crate::gen::edits::boundaries(&text.bytes).into_iter().filter(|b| *b > s && *b < e).collect();
+                        if bs.len() >= 2 {
+                            let a = t.below(bs.len() - 1);
+                            let b = a + 1 + t.below((bs.len() - 1 - a).min(4));
+                            regions[i] = (s, bs[a]);
+                            regions.insert(i + 1, (bs[b], e));
+                        }
+                    }
                     0 => {
                         let i = t.below(regions.len());
                         regions.remove(i);
@@ -419,6 +431,20 @@ pub fn run_session(ctx: &mut Ctx, t: &mut Tape, mode: Mode) {
                     }
                 }
                 if len * 40 <= 4_000_000 {
+                    // an included range (of the old or the new parse) that is a single byte, or whose boundary falls
+                    // strictly inside a token of either tree: the pathological inputs of two known findings
+                    let range_cuts_token = {
+                        let mut bounds: Vec<usize> = vec![];
+                        let mut tiny = false;
+                        for r in old.included_ranges().iter().chain(cur_ranges.iter().flatten()) {
+                            if r.end_byte != usize::MAX && r.end_byte > r.start_byte && r.end_byte - r.start_byte <= 1 {
+                                tiny = true;
+                            }
+                            bounds.push(r.start_byte);
+                            bounds.push(r.end_byte);
+                        }
+                        tiny || old_x.leaves().chain(inc_x.leaves()).any(|n| bounds.iter().any(|b| n.start < *b && *b < n.end))
+                    };
                     let so = stack_sigs(&old_x, len);
                     let sn = stack_sigs(&inc_x, len);
                     let mut differing = 0usize;
@@ -430,8 +456,23 @@ pub fn run_session(ctx: &mut Ctx, t: &mut Tape, mode: Mode) {
                                 let b = text.bytes[i];
                                 let in_error_region = inc_x.nodes.iter().any(|n| n.parent.is_some() && n.start <= i && i < n.end && n.has_error)
                                     && old_x.nodes.iter().any(|n| n.parent.is_some() && n.start <= i && i < n.end && n.has_error);
+                                // the blank run around i is exactly the gap between two reported ranges
+                                let ws = |x: u8| x == b' ' || x == b'\t' || x == b'\n' || x == b'\r';
+                                let gap_between_ranges = ws(b) && {
+                                    let mut a = i;
+                                    while a > 0 && ws(text.bytes[a - 1]) {
+                                        a -= 1;
+                                    }
+                                    let mut z = i + 1;
+                                    while z < len && ws(text.bytes[z]) {
+                                        z += 1;
+                                    }
+                                    ranges.iter().any(|r| r.end_byte == a) && ranges.iter().any(|r| r.start_byte == z)
+                                };
                                 let cls = if in_error_region {
                                     "erroneous_region"
+                                } else if gap_between_ranges {
+                                    "blank_gap_between_two_changed_ranges"
                                 } else if (b == b'\n' || b == b'\r') && (ranges_changed || ranges_differ) {
                                     "newline_with_changed_included_ranges"
                                 } else if b == b'\n' || b == b'\r' {
@@ -442,7 +483,7 @@ pub fn run_session(ctx: &mut Ctx, t: &mut Tape, mode: Mode) {
                                     "whitespace_old_tree_erroneous"
                                 } else if b == b' ' || b == b'\t' {
                                     "whitespace"
-                                } else if ranges_changed || ranges_differ {
+                                } else if (ranges_changed || ranges_differ) && range_cuts_token {
                                     "token_with_changed_included_ranges"
                                 } else {
                                     "token"
